@@ -73,6 +73,15 @@ theorem palette_table :
     (∀ i : Fin 16, Tickit.Gen.Palette.as16.getD i.val 0 = i.val) ∧ (∀ i : Fin 8, Tickit.Gen.Palette.as8.getD i.val 0 = i.val) := by
   decide +kernel
 
+/-- The hand model of `convert_colour` equals the translation of the function's source text (regenerated on every run);
+    nothing is claimed when the extractor could not translate it. -/
+theorem convertColour_leaf_agrees :
+    Tickit.Gen.Sgr.convertColourLeafOk = true → Tickit.Gen.Sgr.convertColourLeaf = convertColour := by
+  intro h
+  first
+    | (funext i c; rfl)
+    | exact absurd h (by decide)
+
 /-- "Colours beyond the terminal's palette are replaced by their 8/16-colour approximation": the colour the cached pen
     holds is inside the palette; an index ≥ `colors` became the generated `as16` entry (`colors ≥ 16`) or `as8` entry
     (otherwise) without RGB, anything else is kept as it is. -/
